@@ -59,3 +59,13 @@ Theorem C14_accepted_graph_completes : forall c : cfg, norepeat c ->
   forall s, Reach c s -> exists ls s', run c s ls = Some s' /\ pc s' = LDone.
 Proof. exact accepted_graph_completes. Qed.
 Print Assumptions C14_accepted_graph_completes.
+
+(* An accepted edge list has an execution order: a duplicate-free list of all n nodes in which every dependency of a
+   node stands behind it (read from the back it is a topological order: the order in which the cycle check eliminates
+   the nodes).  R = u :: R0 is `topo` when every edge w -> u has w in R0, recursively. *)
+From BD.Graph Require Import KahnProof.
+Theorem C14_accepted_has_topological_order : forall (n : nat) (E : list (nat * nat)),
+  (forall u v, In (u, v) E -> u < n /\ v < n) -> has_cycle n E = false ->
+  exists R, NoDup R /\ topo E R /\ forall v, v < n -> In v R.
+Proof. exact topo_order. Qed.
+Print Assumptions C14_accepted_has_topological_order.
